@@ -1151,6 +1151,14 @@ func sample(k kase, o *outcome) map[string]any {
 func main() {
 	run := ev.Start("C11", "exploration")
 	tStart := time.Now()
+	// scratch of earlier runs whose process is gone (a run that ended in HARNESS-UNBOUND inside the engine)
+	if old, _ := filepath.Glob("/dev/shm/verif.c11.*"); len(old) > 0 {
+		for _, d := range old {
+			if _, err := os.Stat("/proc/" + strings.TrimPrefix(d, "/dev/shm/verif.c11.")); err != nil {
+				os.RemoveAll(d)
+			}
+		}
+	}
 	scratch = fmt.Sprintf("/dev/shm/verif.c11.%d", os.Getpid())
 	os.RemoveAll(scratch)
 	must(os.MkdirAll(scratch, 0o755), "scratch")
